@@ -244,7 +244,9 @@ impl Acc {
         };
         let mut runner = TestRunner::new(cfg);
         let failed = AtomicBool::new(false);
-        // SAFETY of the aliasing: proptest's closure is Fn, so state goes through a RefCell.
+        // first failure as observed (kept in case the failure depends on library randomness
+        // that the harness cannot script, so the shrunk case may not fail again)
+        let first: std::cell::RefCell<Option<(Fail, Value)>> = std::cell::RefCell::new(None);
         let cell = std::cell::RefCell::new(&mut *self);
         let res = runner.run(&strat, |case| {
             let mut g = cell.borrow_mut();
@@ -264,7 +266,10 @@ impl Acc {
                         }
                         Ok(())
                     } else {
-                        failed.store(true, Ordering::Relaxed);
+                        if !failed.swap(true, Ordering::Relaxed) {
+                            *first.borrow_mut() =
+                                Some((fail.clone(), serde_json::to_value(&case).unwrap_or(Value::Null)));
+                        }
                         acc.counting = false;
                         Err(TestCaseError::fail(fail.sig))
                     }
@@ -277,20 +282,27 @@ impl Acc {
             Ok(()) => {}
             Err(TestError::Fail(_, minimal)) => {
                 self.counting = false;
-                let r = f(&minimal, self);
+                let mut r = f(&minimal, self);
+                let mut tries = 0;
+                while r.is_ok() && tries < 300 {
+                    r = f(&minimal, self);
+                    tries += 1;
+                }
                 self.counting = true;
-                let fail = match r {
-                    Err(fl) => fl,
-                    Ok(()) => Fail::new(
-                        format!("{}/flaky-shrunk-case", self.sub),
-                        "shrunk case did not fail again (non-deterministic oracle?)",
-                    ),
-                };
-                if fail.sig.ends_with("/flaky-shrunk-case") {
-                    self.harness_errors.push(format!("{}: {}", fail.sig, fail.what));
-                } else {
-                    let v = json!({"label": label, "input": serde_json::to_value(&minimal).unwrap_or(Value::Null)});
-                    self.fail(fail, v);
+                match r {
+                    Err(fl) => {
+                        let v = json!({"label": label, "nondeterministic": tries > 0, "input": serde_json::to_value(&minimal).unwrap_or(Value::Null)});
+                        self.fail(fl, v);
+                    }
+                    Ok(()) => {
+                        // not reproducible from the inputs alone: report the failure as first observed
+                        if let Some((fl, case)) = first.borrow_mut().take() {
+                            let v = json!({"label": label, "nondeterministic": true, "input": case});
+                            self.fail(Fail::new(fl.sig, format!("{} [depends on library randomness; observed once, not reproduced in 300 re-runs of the shrunk case]", fl.what)), v);
+                        } else {
+                            self.harness_errors.push(format!("{}#{label}: failure vanished", self.sub));
+                        }
+                    }
                 }
             }
             Err(TestError::Abort(why)) => {
@@ -594,7 +606,17 @@ pub fn replay_file(defs: Vec<PropertyDef>, path: &str, verif_dir: &str) -> i32 {
             if sc.name == sub {
                 let mut acc = Acc::new(&sc.name, Tier::Quick, 0, known.clone());
                 crate::rng::set_seeded(1);
-                let r = std::panic::catch_unwind(std::panic::AssertUnwindSafe(|| (sc.replay)(&case, &mut acc)));
+                let tries = if case.get("nondeterministic").and_then(|x| x.as_bool()).unwrap_or(false) { 3000 } else { 1 };
+                let r = std::panic::catch_unwind(std::panic::AssertUnwindSafe(|| {
+                    let mut last = Ok(());
+                    for _ in 0..tries {
+                        last = (sc.replay)(&case, &mut acc);
+                        if last.is_err() || !acc.violations.is_empty() {
+                            break;
+                        }
+                    }
+                    last
+                }));
                 crate::rng::set_passthrough();
                 match r {
                     Ok(Ok(())) => {
